@@ -40,6 +40,16 @@ fn build(shape: &str, ops: Vec<E>) -> E {
 
 fn text_of(e: &E, mode: Paren) -> String { format!("SELECT {} FROM t", render(e, mode)) }
 
+/// the minimal text with every blank removed that is not needed to keep two tokens apart (`xs[1]-1`, `a*-b`, `x::int`)
+fn glued_text(e: &E) -> String {
+    let mut toks = Vec::new();
+    expr_tokens(e, Paren::Minimal, &mut toks);
+    let mut out = String::from("SELECT ");
+    for (i, t) in toks.iter().enumerate() { if i > 0 && !crate::monitors::c20::can_touch(&toks[i - 1], t) { out.push(' '); } out.push_str(&t.text); }
+    out.push_str(" FROM t");
+    out
+}
+
 fn parsed_projection(text: &str) -> Result<Option<E>, String> {
     match guard(|| sqlgrep::parsing::parse(text)) {
         Err(p) => Err(format!("panic:{}", p.sig())),
@@ -137,6 +147,16 @@ impl Monitor for C13 {
             Ok(None) => return Verdict::Inconclusive("not-a-plain-projection".into()),
             Err(e) => { vs.push(Violation::new(format!("full-paren|{}", grouping_sig(&want, Err(&e))), format!("text {:?} rejected: {}", full, e))); false }
         };
+        // the same tokens without the optional blanks: grouping must not depend on them
+        if full_ok && kind != "extra-parens" {
+            let glued = glued_text(&ast);
+            obs.evals += 1;
+            match parsed_projection(&glued) {
+                Ok(Some(g)) => { let g = canon(&g); if g != want { let (w, gg) = first_difference(&want, &g).unwrap_or((&want, &g)); vs.push(Violation::new(format!("glued|{}", grouping_sig(w, Ok(gg))), format!("text {:?}: expected sub-tree {}, parsed as {}", glued, render(w, Paren::Full), render(gg, Paren::Full)))); } }
+                Ok(None) => {}
+                Err(e) => vs.push(Violation::new(format!("glued|reject|{}", e.chars().filter(|c| !c.is_ascii_digit()).take(40).collect::<String>()), format!("text {:?} rejected: {} (with single blanks between the tokens it is {:?})", glued, e, min))),
+            }
+        }
         match parsed_projection(&min) {
             Ok(Some(g)) => {
                 let g = canon(&g);
